@@ -417,7 +417,7 @@ unsafe fn send_copy<S: Service>(
 ) -> c_int {
     let mut sample = match unsafe { active_request.loan_custom_payload(number_of_elements) } {
         Ok(sample) => sample,
-        Err(e) => return e.into_c_int(),
+        Err(e) => return iceoryx2::port::SendError::from(e).into_c_int(),
     };
 
     let data_len = size_of_element * number_of_elements;
